@@ -395,3 +395,5 @@ def rules(ctx):
     fresh_decompose(ctx)
     xseries_guards(ctx)
     op_clone(ctx)
+    from . import common_alias as _CA
+    _CA.shallow_copy_mutation(ctx, "C12.shallow-copy", ("compilers/xunitary.py", "compilers/xcov.py", "compilers/xstrict.py", "compilers/gbs.py", "compilers/tdm.py", "compilers/compiler.py", "tdm/utils.py"))
